@@ -181,7 +181,9 @@ func buildShiftMatchingPredicate(sw swamp.Swamp, beaconType swamp.BeaconType, fi
 	if plan.Mode != PlanModeBypass {
 		candidates := collectBucketCandidates(sw, plan.Hints)
 		keySet = candidateKeySet(candidates)
-		filterEval = plan.Residual
+		// The candidates were collected before the engine's selection runs
+		// and a record may have been patched since, so they only serve as a
+		// fast reject: the complete filter, not plan.Residual, decides.
 		useKeySet = true
 	}
 
